@@ -53,7 +53,7 @@ def configs(draw):
             "job_prefix": draw(st.sampled_from(["job", "x", "my_prefix"])),
             "slurm": {
                 "account": draw(st.sampled_from(["acct", "proj1"])),
-                "walltime": draw(st.sampled_from(["1:00:00", "0:30:00", "10:00:00"])),
+                "walltime": draw(st.sampled_from(["1:00:00", "0:30:00", "10:00:00", "4:00:00"])),
                 "partition": draw(OPT_STR("debug", "short")), "qos": draw(OPT_STR("high")), "mem": draw(OPT_STR("10G")),
                 "tmp": draw(OPT_STR("1T")), "gres": draw(OPT_STR("gpu:2")), "reservation": draw(OPT_STR("res1")),
                 "nodes": draw(st.one_of(st.none(), st.integers(1, 4))), "ntasks": draw(st.one_of(st.none(), st.integers(1, 4))),
@@ -84,7 +84,9 @@ def configs(draw):
             "command": draw(COMMAND),
             "blocked_by": blocked,
             "cancel": draw(st.booleans()),
-            "est": draw(st.one_of(st.none(), st.integers(1, 30))),
+            # the estimate is a fraction (per mille) of the job's OWN group's walltime: valid estimates of one group may
+            # exceed another group's walltime, and the injected invalid one exceeds only its own
+            "est_permille": draw(st.one_of(st.none(), st.integers(1, 1000), st.sampled_from([1000, 999, 500]))),
             "group": draw(st.integers(0, ng - 1)),
             "append_job_name": draw(st.booleans()), "append_output_dir": draw(st.booleans()),
             "ext": draw(st.dictionaries(st.text(max_size=4), JSONV, max_size=2)),
@@ -133,14 +135,15 @@ def build(case):
         blocked = list(j["blocked_by"])
         name = j["name"]
         group = f"grp{j['group']}"
-        est = j["est"]
+        wt = walltime_minutes(case["groups"][j["group"]]["slurm"]["walltime"])
+        est = None if j["est_permille"] is None else max(1, wt * j["est_permille"] // 1000)
         if i == pick:
             if inv == "unknown_blocker":
                 blocked.append("no_such_job_anywhere")
             elif inv == "unknown_group":
                 group = "no_such_group"
             elif inv == "estimate_above_walltime":
-                est = 60 * 11
+                est = wt + 1 + (case["pick"] * 7) % 29  # above its own group's walltime only
             elif inv == "duplicate_name" and n > 1:
                 other = case["jobs"][(pick + 1) % n]
                 name = other["name"] if other["name"] is not None else str(((pick + 1) % n) + 1)
@@ -149,6 +152,11 @@ def build(case):
             estimated_run_minutes=est, submission_group=group, append_job_name=j["append_job_name"],
             append_output_dir=j["append_output_dir"], ext=j["ext"]))
     return cfg
+
+
+def walltime_minutes(text):
+    h, m, sec = (int(x) for x in text.split(":"))
+    return h * 60 + m + (1 if sec else 0)
 
 
 def effective_invalid(case):
